@@ -93,6 +93,13 @@ class MultiPaxosNode(Entity):
         # Accepts that arrived before an earlier slot (network reordering)
         self._held_accepts: dict[int, Event] = {}
 
+        # Per-slot Paxos bookkeeping: the full ballot each entry was accepted under (log
+        # terms only keep the number), who acknowledged it to us as leader, and the
+        # ballot for which Phase-1 recovery has already been run
+        self._slot_ballot: dict[int, Ballot] = {}
+        self._slot_ackers: dict[int, set[str]] = {}
+        self._recovered_ballot: Ballot | None = None
+
         # Heartbeat event
         self._heartbeat_event: Event | None = None
 
@@ -148,6 +155,8 @@ class MultiPaxosNode(Entity):
         self._slot_futures[slot] = future
         self._slot_commands[slot] = command
         self._slot_acks[slot] = 1  # self
+        self._slot_ackers[slot] = {self.name}
+        self._slot_ballot[slot] = self._current_ballot
 
     def start(self) -> list[Event]:
         """Start by attempting to become leader."""
@@ -229,7 +238,12 @@ class MultiPaxosNode(Entity):
 
         # Send our log entries
         entries = [
-            {"index": e.index, "term": e.term, "command": e.command}
+            {
+                "index": e.index,
+                "term": e.term,
+                "command": e.command,
+                "ballot_node": self._slot_ballot.get(e.index, Ballot(e.term, "")).node_id,
+            }
             for e in self._log.entries_after(0)
         ]
         promise = self._network.send(
@@ -279,6 +293,10 @@ class MultiPaxosNode(Entity):
         logger.debug("[%s] Became leader (ballot=%s)", self.name, self._current_ballot)
 
         events: list[Event] = []
+        if self._recovered_ballot == self._current_ballot:
+            return events  # a promise beyond the quorum: recovery already ran for this ballot
+        self._recovered_ballot = self._current_ballot
+        resend_from = self._recover_log()
 
         # Process pending commands
         for command, future in self._pending_commands:
@@ -288,11 +306,59 @@ class MultiPaxosNode(Entity):
         # Send initial heartbeat
         events.extend(self._send_heartbeat())
 
-        # Replicate uncommitted entries
-        for slot_idx in range(self._log.commit_index + 1, self._log.last_index + 1):
+        # (Re-)propose everything a promiser may not hold as decided under our ballot
+        for slot_idx in range(resend_from, self._log.last_index + 1):
             events.extend(self._replicate_slot(slot_idx))
 
         return events
+
+
+    def _recover_log(self) -> int:
+        """Phase-1 recovery.  For every slot above our commit index adopt the entry that
+        was accepted under the highest ballot among our own log and the promises, and
+        re-propose it under our ballot; client commands only go to the slots after them.
+        Returns the first slot to (re-)send Accepts for."""
+        commit = self._log.commit_index
+        own = {e.index: e.command for e in self._log.entries_after(commit)}
+        best: dict[int, tuple[Ballot, Any]] = {
+            e.index: (self._slot_ballot.get(e.index, Ballot(e.term, "")), e.command)
+            for e in self._log.entries_after(commit)
+        }
+        resend_from = commit + 1
+        for resp in self._phase1_responses.get(self._current_ballot.number, []):
+            resend_from = min(resend_from, resp.get("commit_index", commit) + 1)
+            for ent in resp.get("log_entries", []):
+                accepted = Ballot(ent["term"], ent.get("ballot_node", ""))
+                if ent["index"] > commit and (
+                    ent["index"] not in best or accepted > best[ent["index"]][0]
+                ):
+                    best[ent["index"]] = (accepted, ent["command"])
+
+        self._log.truncate_from(commit + 1)
+        slot = commit + 1
+        while slot in best:
+            command = best[slot][1]
+            self._log.append(self._current_ballot.number, command)
+            if slot in self._slot_futures and own.get(slot) != command:
+                del self._slot_futures[slot]  # our own proposal for this slot lost
+            self._slot_acks[slot] = 1
+            self._slot_ackers[slot] = {self.name}
+            slot += 1
+        for stale in [i for i in self._slot_futures if i >= slot]:
+            del self._slot_futures[stale]
+        for idx in range(1, slot):
+            self._slot_ballot[idx] = self._current_ballot
+        return max(1, resend_from)
+
+    def _commit_through(self, leader_commit: int, ballot: Ballot) -> None:
+        """Follower side: advance the commit index only over entries held under the
+        committing leader's ballot (an older entry in that slot may differ)."""
+        target = self._log.commit_index
+        limit = min(leader_commit, self._log.last_index)
+        while target < limit and self._slot_ballot.get(target + 1) == ballot:
+            target += 1
+        if target > self._log.commit_index:
+            self._apply_committed(self._log.advance_commit(target))
 
     def _handle_accept(self, event: Event) -> list[Event]:
         metadata = event.context.get("metadata", {})
@@ -327,18 +393,8 @@ class MultiPaxosNode(Entity):
             self._held_accepts[slot] = event
             return []
 
-        # Append to log (truncate conflicting entries)
-        if slot > self._log.last_index:
-            self._log.append(ballot.number, command)
-        elif self._log.get(slot) and self._log.get(slot).term != ballot.number:
-            self._log.truncate_from(slot)
-            self._log.append(ballot.number, command)
-
-        # Advance commit index
-        leader_commit = metadata.get("commit_index", 0)
-        if leader_commit > self._log.commit_index:
-            newly_committed = self._log.advance_commit(leader_commit)
-            self._apply_committed(newly_committed)
+        self._accept_entry(slot, ballot, command)
+        self._commit_through(metadata.get("commit_index", 0), ballot)
 
         accepted = self._network.send(
             source=self,
@@ -346,6 +402,7 @@ class MultiPaxosNode(Entity):
             event_type="MultiPaxosAccepted",
             payload={
                 "ballot_number": ballot.number,
+                "ballot_node": ballot.node_id,
                 "slot": slot,
                 "from": self.name,
             },
@@ -357,17 +414,50 @@ class MultiPaxosNode(Entity):
             events.extend(self._handle_accept(held))
         return events
 
+
+    def _accept_entry(self, slot: int, ballot: Ballot, command: Any) -> None:
+        """Acceptor side: store (ballot, command) for the slot.  Decided slots are never
+        rewritten; an undecided entry is replaced in place (later slots are kept)."""
+        existing = self._log.get(slot)
+        if slot <= self._log.commit_index:
+            self._slot_ballot[slot] = ballot
+            return
+        if existing is None:
+            self._log.append(ballot.number, command)
+        elif existing.term != ballot.number or existing.command != command:
+            tail = self._log.entries_from(slot + 1)
+            self._log.truncate_from(slot)
+            self._log.append(ballot.number, command)
+            for entry in tail:
+                self._log.append(entry.term, entry.command)
+            if existing.command != command:
+                self._slot_futures.pop(slot, None)  # what we proposed here lost
+        self._slot_ballot[slot] = ballot
+
     def _handle_accepted(self, event: Event) -> list[Event]:
         metadata = event.context.get("metadata", {})
         slot = metadata["slot"]
+        acked = Ballot(
+            metadata.get("ballot_number", self._current_ballot.number),
+            metadata.get("ballot_node", self._current_ballot.node_id),
+        )
+        if not self._is_leader or acked != self._current_ballot:
+            return []  # an acknowledgement for a ballot we no longer lead with
 
-        if slot not in self._slot_acks:
-            self._slot_acks[slot] = 0
-        self._slot_acks[slot] += 1
+        ackers = self._slot_ackers.setdefault(slot, {self.name})
+        ackers.add(metadata.get("from") or metadata.get("source"))
+        self._slot_acks[slot] = len(ackers)
 
-        if self._slot_acks[slot] >= self.quorum_size and slot > self._log.commit_index:
-            newly_committed = self._log.advance_commit(slot)
-            self._apply_committed(newly_committed)
+        # Decide the longest prefix whose every slot has a Phase-2 quorum under our ballot
+        target = self._log.commit_index
+        while (
+            target < self._log.last_index
+            and self._slot_acks.get(target + 1, 0) >= self.quorum_size
+            and self._slot_ballot.get(target + 1) == self._current_ballot
+        ):
+            target += 1
+        if target > self._log.commit_index:
+            self._apply_committed(self._log.advance_commit(target))
         return []
 
     def _handle_heartbeat(self, event: Event) -> list[Event] | None:
@@ -387,10 +477,7 @@ class MultiPaxosNode(Entity):
             self._leader = ballot.node_id
             self._is_leader = False
             self._last_leader_heartbeat = self.now.to_seconds()
-
-            if leader_commit > self._log.commit_index:
-                newly_committed = self._log.advance_commit(leader_commit)
-                self._apply_committed(newly_committed)
+            self._commit_through(leader_commit, ballot)
         return None
 
     def _handle_forward(self, event: Event) -> list[Event]:
